@@ -787,7 +787,87 @@ def shrink(case, sig, budget=80):
     return cur
 
 
+def resolution_change_cases(ctx):
+    """'a segment of D ticks' — D = duration x ticks_per_beat, with the timeline's resolution when the curve is played, "for all
+    ticks_per_beat": also on a track that has already played a curve at ANOTHER resolution (a retained track given a second
+    curve with update() after `timeline.ticks_per_beat = N`).  Differential on the implementation: the values the re-used track
+    sends for the second curve are those a new track on a new timeline of that resolution sends for it (the route the Lean
+    model is compared on), one per tick."""
+    I = iso()
+    isobar = I["isobar"]
+    from isobar.io.output import OutputDevice
+    r = ctx.rng
+
+    class Rec(OutputDevice):
+        def __init__(self):
+            super().__init__()
+            self.now, self.msgs = 0, []
+
+        def tick(self):
+            self.now += 1
+
+        def control(self, control=0, value=0, channel=0):
+            self.msgs.append((self.now, control, round(float(value), 9), channel))
+
+    def events(curve):
+        return {"control": 11, "value": isobar.PSequence(list(curve["v"]), 1), "duration": isobar.PSequence(list(curve["d"]), 1), "channel": 3}
+
+    def gen_curve(shared_durs):
+        n = r.randint(2, 5)
+        return {"v": [r.randint(0, 127) for _ in range(n)],
+                "d": [r.choice(shared_durs) for _ in range(n)]}
+
+    for i in range(ctx.scale(150, 5000)):
+        tpb1, tpb2 = r.sample([2, 4, 8, 10, 24, 48, 96], 2)
+        mode = r.choice(["linear", "cosine"])
+        durs = r.sample([0.25, 0.5, 1, 1.5, 2, 3], r.randint(1, 3))        # the second curve re-uses durations of the first
+        first, second = gen_curve(durs), gen_curve(durs)
+        route = r.choice(["property", "property", "clock-source"])
+        # the re-used track
+        dev = Rec()
+        tl = isobar.Timeline(tempo=120, output_device=dev, clock_source=isobar.DummyClock(ticks_per_beat=tpb1))
+        tr = tl.schedule(events(first), interpolate=mode, remove_when_done=False)
+        n1 = int(round(sum(first["d"][:-1]) * tpb1)) + r.randint(2, 6)
+        try:
+            for _ in range(n1):
+                tl.tick()
+            if route == "property":
+                tl.ticks_per_beat = tpb2
+            else:
+                tl.clock_source = isobar.DummyClock(ticks_per_beat=tpb2)
+            before = len(dev.msgs)
+            tr.update(events(second), quantize=0, delay=0)
+            n2 = int(round(sum(second["d"][:-1]) * tpb2)) + 4
+            for _ in range(n2):
+                tl.tick()
+            got = dev.msgs[before:]
+            # the reference: a new track on a new timeline
+            dev2 = Rec()
+            tl2 = isobar.Timeline(tempo=120, output_device=dev2, clock_source=isobar.DummyClock(ticks_per_beat=tpb2))
+            tl2.schedule(events(second), interpolate=mode)
+            for _ in range(n2):
+                tl2.tick()
+            ref = dev2.msgs
+        except Exception as ex:
+            ctx.note("resolution change case failed to run: %r" % (ex,))
+            continue
+        case = {"first_resolution": tpb1, "second_resolution": tpb2, "mode": mode, "first_curve": first, "second_curve": second, "route": route}
+        ctx.case(("resolution-change", repr(case)), nontrivial=True, validated=False, sample=dict(case, messages=len(got)) if i < 3 else None)
+        ctx.count("resolution-change:%s" % route)
+        gv, rv = [m[1:] for m in got], [m[1:] for m in ref]
+        gt = [m[0] - got[0][0] for m in got] if got else []
+        rt = [m[0] - ref[0][0] for m in ref] if ref else []
+        if gv != rv or gt != rt:
+            j = next((j for j, (x, y) in enumerate(zip(zip(gt, gv), zip(rt, rv))) if x != y), min(len(gv), len(rv)))
+            ctx.violation("C15:curve-after-resolution-change",
+                          "a retained track given a second curve after the resolution went %d -> %d sends %d messages, a new track at %d ticks "
+                          "per beat sends %d; first difference at message %d: %s vs %s" % (
+                              tpb1, tpb2, len(gv), tpb2, len(rv), j, list(zip(gt, gv))[j:j + 1], list(zip(rt, rv))[j:j + 1]),
+                          {"suite": "c15-resolution", "case": case, "first_failing_clause": "each control point is hit exactly on its own tick (D = duration x ticks_per_beat)"})
+
+
 def run(ctx):
+    resolution_change_cases(ctx)
     n = ctx.scale(3000, 160000)
     npat = ctx.scale(1200, 40000)
     cases = [gen_case(ctx.rng, "t%d" % i) for i in range(n)] + [gen_pcase(ctx.rng, "p%d" % i) for i in range(npat)]
